@@ -253,9 +253,9 @@ const (
 	UPDATE
 		locks
 	SET
-		expires_at = ? + ttl
+		expires_at = CASE WHEN ttl > 9223372036854775807 - ?1 THEN 9223372036854775807 ELSE ?1 + ttl END
 	WHERE
-		process_id = ?`
+		process_id = ?2`
 
 	LOCK_TIMEOUT_STATEMENT = `
 	DELETE FROM locks WHERE expires_at <= ?`
@@ -356,9 +356,9 @@ const (
 	UPDATE
 		tasks
 	SET
-		expires_at = ? + ttl
+		expires_at = CASE WHEN ttl > 9223372036854775807 - ?1 THEN 9223372036854775807 ELSE ?1 + ttl END
 	WHERE
-		process_id = ? AND state = 4`
+		process_id = ?2 AND state = 4`
 )
 
 // Config
